@@ -263,11 +263,20 @@ macro_rules! matrix { ($m:ident, $($a:tt)*) => { $m!($($a)*;
     Vec<Box<[String]>>, Vec<Box<Vec<String>>>, Vec<Box<str>>, Vec<Box<Path>>, Vec<Box<CStr>>, Box<[Box<[Vec<u8>]>]>, Option<(PathBuf, OsString, CString)>
 ); } }
 
+/// Second matrix: every constructor applied to every inner type (closes the matrix under one more level of nesting,
+/// e.g. arrays of boxes of sized types, tuples of arrays, boxed arrays of boxes).
+macro_rules! cross { ($m:ident, [$($a:tt)*], $($i:ty),*) => { $m!($($a)*; $(
+    Vec<$i>, Box<$i>, [$i; 0], [$i; 1], [$i; 3], ($i,), (u8, $i), ($i, String, $i), Option<$i>, Result<$i, u8>, Wrapping<$i>, Range<$i>, Mutex<$i>,
+    Box<[$i]>, Vec<[$i; 3]>, [[$i; 3]; 1], [Box<$i>; 3], Box<[$i; 3]>, Vec<Box<$i>>, ([$i; 3], u8), Wrapping<[$i; 3]>, [Option<$i>; 3], Vec<($i, u8)>
+),*); } }
+
 macro_rules! run_types { ($seed:expr, $rounds:expr, $out:expr, $only:expr; $($t:ty),* $(,)?) => {{ let mut i = 0usize; $( { let _ = i; if $only.map(|(sh, n): (u64, u64)| (i as u64) % n == sh).unwrap_or(true) { check_type::<$t>($seed, $rounds, $out); } i += 1; } )* let _ = i; }} }
 
 pub fn run_memsize(seed: u64, rounds: u64, shard: Option<(u64, u64)>) -> MsOut {
     let mut out = MsOut { stats: Stats::default(), viols: Vec::new(), per_type: Vec::new() };
     matrix!(run_types, seed, rounds, &mut out, shard);
+    let rounds3 = (rounds / 3).max(20);
+    cross!(run_types, [seed, rounds3, &mut out, shard], u8, String, Box<u32>, Vec<u8>, (String, u8), [String; 0], Box<str>, Option<Box<u16>>, [Box<u32>; 3], Box<[u16]>);
     if shard.map(|(s, _)| s == 0).unwrap_or(true) { check_unsized(seed, rounds, &mut out); }
     out.stats.events = out.stats.evals.values().sum();
     out
